@@ -90,22 +90,25 @@ Theorem C01_meta_order_invariant :
 Proof. exact meta_order_invariant. Qed.
 Print Assumptions C01_meta_order_invariant.
 
-(* Concurrent bulks: every interleaving that the writer's mutex allows (whole units "docs block,
-   then the meta block describing it", in any lock order, any group cbs, from any consistent files)
-   produces exactly the files of the sequence of atomic bulk steps in lock order — so concurrent
-   acknowledged bulks are covered by the history theorems above as consecutive HBulk steps — and
-   keeps meta order = docs order. *)
+(* Concurrent bulks, some of which may fail: every interleaving that the writer's mutex allows -
+   whole units in any lock order; a unit reads its rollback target INSIDE the lock, then either
+   writes "docs block, then the meta block describing it" or fails in its docs or meta write after
+   any number of bytes and rolls back - produces, for any group cbs and any consistent files,
+   exactly the files and writer offsets of the sequence of atomic bulk steps of the SUCCESSFUL units
+   in lock order: a failed unit is the identity whatever ran before it. So a concurrent group is
+   covered by the history theorems as consecutive HBulk / HFault steps, and meta order = docs order
+   is kept. *)
 Theorem C01_locked_units_sequential :
-  forall cbs order bs pend,
-    (exists pend',
-      run_events cbs (WSt (dfile bs) (mfile bs 0) (length (dfile bs)) (length (mfile bs 0)) pend)
-                 (locked order)
-      = let bs' := bs ++ map (fun i => nth i cbs no_bulk) order in
-        WSt (dfile bs') (mfile bs' 0) (length (dfile bs')) (length (mfile bs' 0)) pend') /\
+  forall cbs us bs pend snap,
+    (exists pend' snap',
+      run_events cbs (WSt (dfile bs) (mfile bs 0) (length (dfile bs)) (length (mfile bs 0)) pend snap)
+                 (locked us)
+      = let bs' := bs ++ flat_map (unit_ok cbs) us in
+        WSt (dfile bs') (mfile bs' 0) (length (dfile bs')) (length (mfile bs' 0)) pend' snap') /\
     meta_describes_docs
       (w_meta (run_events cbs
-         (WSt (dfile bs) (mfile bs 0) (length (dfile bs)) (length (mfile bs 0)) pend)
-         (locked order))) = true.
+         (WSt (dfile bs) (mfile bs 0) (length (dfile bs)) (length (mfile bs 0)) pend snap)
+         (locked us))) = true.
 Proof. intros. split; [apply locked_units | apply locked_units_meta_order]. Qed.
 Print Assumptions C01_locked_units_sequential.
 
@@ -217,4 +220,19 @@ Example C01_rollback_order_v0_refuted :
 Proof.
   destruct w_rollback_order_hazard as (A & B). destruct w_rollback_meta_first as (C & D & _).
   split; [exact A |]. split; [exact B |]. split; [exact C | exact D].
+Qed.
+
+(* ---------- the rollback target must be read inside the locked unit: if a writer snapshots the
+   offsets BEFORE it gets the lock (here: before the bulk ahead of it ran) and then fails, its
+   rollback cuts off the blocks of the bulk that was acknowledged meanwhile ---------- *)
+Example C01_snapshot_before_lock_refuted :
+  (* B acknowledged, A fails; snapshot before the lock: both files are empty again, B is gone *)
+  w_docs w_fail_stale = [] /\ w_meta w_fail_stale = [] /\
+  fetch_after_restart w_fail_stale (d_id wd1) = Some Absent /\
+  (* snapshot inside the unit: B intact, A absent *)
+  fetch_after_restart w_fail_locked (d_id wd1) = Some (Body (d_body wd1)) /\
+  fetch_after_restart w_fail_locked (d_id wd4) = Some Absent.
+Proof.
+  destruct w_snapshot_before_lock_breaks as (A & B & C). destruct w_snapshot_inside_fine as (D & E).
+  repeat split; assumption.
 Qed.
